@@ -272,6 +272,62 @@ fn session(rng: &mut crate::util::Rng, rep: &mut Report) {
     session_of_length(rng, rep, n)
 }
 
+/// A data chunk sent after the bus has seen exactly k replies of one kind in a row (k = 0..66, 127, 128, 255, 256 — the
+/// counts at which a tally, a shift or a back-off schedule derived from the history would do something odd): the pause
+/// after the chunk is 30 ms whatever came before it.
+fn after_k_replies(rep: &mut Report) {
+    let kinds: [(&str, fn(usize) -> RefMsg); 4] = [
+        ("failed-transfer reports", |i| RefMsg::Report(3, if i % 2 == 0 { S_PIX_FAIL } else { S_CFG_FAIL })),
+        ("pixels-failed reports", |_| RefMsg::Report(3, S_PIX_FAIL)),
+        ("received reports", |i| RefMsg::Report(3, if i % 2 == 0 { S_PIX_RECV } else { S_CFG_RECV })),
+        ("acknowledgements", |i| RefMsg::Ack(3, i % N_OPS)),
+    ];
+    let ks: Vec<usize> = (0..=66).chain([127, 128, 129, 255, 256, 257]).collect();
+    for (kname, reply_of) in kinds {
+        for &k in &ks {
+            // the full sweep for the failure reports; every third count for the other kinds
+            if !kname.contains("failed") && k % 3 != 0 {
+                continue;
+            }
+            let mut tape = vec![];
+            for i in 0..k {
+                tape.extend_from_slice(&refs::wire(&reply_of(i)));
+            }
+            tape.extend_from_slice(SENTINEL);
+            let st = doubles::shared(doubles::WEIRD_SETTINGS);
+            let port = InstrPort::scripted(st.clone(), FragReader::plain(tape), FragWriter::new(vec![], WriteAct::Accept(usize::MAX)));
+            let Ok(mut bus) = SerialSignBus::try_new(port) else { continue };
+            rep.case(Some(fnv(format!("{}-{}", kname, k).as_bytes())));
+            let r = catch(|| {
+                for _ in 0..k {
+                    if bus.process_message(refs::from_ref(&RefMsg::Query(3))).is_err() {
+                        return None;
+                    }
+                }
+                st.borrow_mut().log.clear();
+                let a = bus.process_message(refs::from_ref(&RefMsg::Data { offset: 0, data: vec![0x77; 16] })).is_ok();
+                let n1 = st.borrow().log.len();
+                let b = bus.process_message(refs::from_ref(&RefMsg::Goodbye(3))).is_ok();
+                Some((a && b, n1))
+            });
+            let Ok(Some((true, n1))) = r else {
+                rep.note(&format!("measure_error/after_k/{}/{}", kname, k), J::s("an exchange failed"));
+                continue;
+            };
+            let log = st.borrow().log.clone();
+            let end = log[..n1].iter().filter(|e| matches!(e.ev, PortEv::Write { .. })).map(|e| e.t1).next_back();
+            let next = log[n1..].iter().find(|e| matches!(e.ev, PortEv::Write { .. })).map(|e| e.t0);
+            if let (Some(a), Some(b)) = (end, next) {
+                let gap = b.duration_since(a);
+                rep.count("chunks_after_k_replies");
+                if gap < SEND_PACE {
+                    rep.violation(MON, "data_chunk_not_paced", &format!("after-{}-{}", k, kname), format!("a data chunk sent after {} {} in a row: the next message was written {:.3} ms later (< 30 ms)", k, kname, ms(gap)), J::obj(vec![("replies_before", J::us(k)), ("kind", J::s(kname)), ("gap_ms", J::Num(ms(gap)))]));
+                }
+            }
+        }
+    }
+}
+
 /// One bus, nothing but data chunks, `n` of them: chunk number 256 (quick) and 65 536 (thorough) must be followed by the
 /// same 30 ms of silence as chunk number 1.
 fn chunk_run(rep: &mut Report, n: usize) {
@@ -502,6 +558,8 @@ pub fn run(ctx: &Ctx) -> Outcome {
             rep.count("long_sessions");
         } else if i == 2 {
             chunk_run(rep, if ctx.quick() { 300 } else { 66_000 });
+        } else if i == 3 {
+            after_k_replies(rep);
         }
         for _ in 0..n_sessions / shards {
             session(&mut rng, rep);
@@ -527,6 +585,7 @@ pub fn run(ctx: &Ctx) -> Outcome {
         floor("sessions: paced chunks, paced replies and unpaced pairs all observed mid-session", report.get("session_paced_chunks") >= 50 && report.get("session_paced_replies") >= 20 && report.get("session_pairs_judged") >= 10, format!("{} chunks, {} replies, {} pairs", report.get("session_paced_chunks"), report.get("session_paced_replies"), report.get("session_pairs_judged"))),
         floor("paced exchanges on ports whose write / read blocks for 10, 20, 45 and 120 ms", report.get("stalled_port_trials") >= 8, report.get("stalled_port_trials")),
         floor("a run of data chunks through one bus (300 in the quick tier, 66 000 in the thorough tier)", report.get("chunk_run_chunks") == if ctx.quick() { 300 } else { 66_000 }, report.get("chunk_run_chunks")),
+        floor("a data chunk after exactly k replies of one kind, k = 0..66 and around 128 / 256", report.get("chunks_after_k_replies") >= 140, report.get("chunks_after_k_replies")),
         floor("two sessions of 300 messages through one bus", report.get("long_sessions") == 2, report.get("long_sessions")),
         floor("every unpaced cell measured", report.get("unpaced_send_cells") == n_send_unpaced, report.get("unpaced_send_cells")),
         floor("no measurement errors", !report.notes.keys().any(|k| k.starts_with("measure_error/")), "see notes"),
